@@ -17,6 +17,7 @@ type Gen struct {
 	gnbs     []net.IP
 	flowSeq  int
 	flowsSeen map[string]bool
+	base8     []*FlowSpec // flows on 11.0.0.0/8..16 (candidates for siblings that differ in the prefix length only)
 	// Avoid: known-finding triggers this run's generators stay away from, so
 	// that most runs explore *past* the listed findings (DESIGN.md section 13).
 	Avoid map[string]bool
@@ -40,7 +41,7 @@ func NewGen(r *Run) *Gen {
 
 // KnownTriggers are generator switches for inputs that reach a listed known
 // finding. In 3 of 4 runs each is avoided.
-var KnownTriggers = []string{"up4-multi-pdr-session", "up4-far-update-leaves-tunnel-peer", "update-pdr-filter", "update-session-qer", "update-pdr-qer-list", "create-qer-in-modification"}
+var KnownTriggers = []string{"up4-multi-pdr-session", "up4-far-update-leaves-tunnel-peer", "up4-update-pdr-precedence-filtered", "update-pdr-filter", "update-session-qer", "update-pdr-qer-list", "create-qer-in-modification"}
 
 func (g *Gen) DrawAvoid() {
 	for _, k := range KnownTriggers {
@@ -81,6 +82,22 @@ func (g *Gen) precedence() uint32 {
 // Flow draws a flow description inside the C03 envelope: "permit out <proto>
 // from <remote>[ port] to assigned".
 func (g *Gen) Flow(wide bool) *FlowSpec {
+	if len(g.base8) > 0 && g.c(6, "sibling") == 1 {
+		// a sibling of an earlier filter: same address, ports and protocol, another
+		// prefix length - two distinct filters, two applications
+		o := g.base8[g.c(len(g.base8), "sibling-of")]
+		for try := 0; try < 4; try++ {
+			l := 8 + g.c(9, "sibling-plen")
+			s := *o
+			s.RemoteLen = l
+			s.Text = strings.Replace(o.Text, fmt.Sprintf("/%d", o.RemoteLen), fmt.Sprintf("/%d", l), 1)
+			key := fmt.Sprintf("%d/%d/%d/%v/%d-%d", s.RemoteIP, s.RemoteLen, s.Proto, s.HasPort, s.PortLo, s.PortHi)
+			if l != o.RemoteLen && !g.flowsSeen[key] && s.Text != o.Text {
+				g.flowsSeen[key] = true
+				return &s
+			}
+		}
+	}
 	f := &FlowSpec{Valid: true, Dir: "out", Proto: -1, UESide: "assigned"}
 	proto := "ip"
 	switch g.c(4, "proto") {
@@ -152,6 +169,9 @@ func (g *Gen) Flow(wide bool) *FlowSpec {
 		key = fmt.Sprintf("%d/%d/%d/%v/%d-%d", f.RemoteIP, f.RemoteLen, f.Proto, f.HasPort, f.PortLo, f.PortHi)
 	}
 	g.flowsSeen[key] = true
+	if f.RemoteIP == 0x0B000000 && f.RemoteLen <= 16 {
+		g.base8 = append(g.base8, f)
+	}
 	return f
 }
 
@@ -381,6 +401,14 @@ func (g *Gen) Modification(s *CPSession) *ModSpec {
 			p.UEIPAlloc, p.UEIP = false, p.GotUEIP
 		}
 		m.Tag = "uP:prec"
+		if g.UP4 && p.SDF != nil {
+			// On UP4 the priority of the applications entry follows the PDR's
+			// precedence; an Update PDR of a filtered PDR reaches a listed finding
+			if g.Avoid["up4-update-pdr-precedence-filtered"] {
+				return &ModSpec{}
+			}
+			m.Trigger = "up4-update-pdr-precedence-filtered"
+		}
 		switch g.c(3, "updwhat") {
 		case 0:
 			p.Precedence = g.precedence()
